@@ -718,10 +718,12 @@ impl Packet {
             }
         }
 
-        let mut buf_length = 4 + self.payload.len() + self.token.len();
+        // The payload (and its marker) is only sent for non-empty messages,
+        // so only then does it count towards the size limit.
+        let mut buf_length = 4 + self.token.len();
         if self.header.code != MessageClass::Empty && !self.payload.is_empty()
         {
-            buf_length += 1;
+            buf_length += 1 + self.payload.len();
         }
         buf_length += options_bytes.len();
 
